@@ -1,0 +1,34 @@
+//go:build verif
+
+package full
+
+// Contracts for the deductive verifier in /verif (govc). Comments only; build tag "verif".
+//
+// C15, availability path: what a full node stores when it only knows the header. Ghost state: $PutQ4 /
+// $PutODS / $PutErr as in core (the store was asked to keep the square with / without parity, and
+// failed), $Had (the store already has the height), $Fetched / $FetchErr (the network getter was asked
+// for the square of this header / failed). For every header, mode and getter outcome: a pruned node
+// outside the window neither fetches nor stores and says so; whatever is stored is stored under the
+// header's own DAH and height; the square is stored without parity only by an archival node outside
+// the window; a failed fetch stores nothing and is an error; success means stored or already there;
+// a store failure is an error.
+
+//@ extern (*github.com/celestiaorg/celestia-node/store.Store).HasByHeight
+//@   effect $Had := result0
+//@ extern (github.com/celestiaorg/celestia-node/share/shwap.Getter).GetEDS
+//@   effect $Fetched := true
+//@   effect $FetchErr := err != nil
+
+//@ func (*ShareAvailability).SharesAvailable
+//@   property C15
+//@   noframe
+//@   requires fa != nil && header != nil && !$PutQ4 && !$PutODS && !$PutErr && !$Fetched && !$FetchErr && !$Had
+//@   callpre Store).PutODSQ4: $arg2 == header.DAH && $arg3 == header.Height()
+//@   callpre Store).PutODS: $arg2 == header.DAH && $arg3 == header.Height()
+//@   callpre Getter).GetEDS: $arg2 == header
+//@   ensures !fa.archival && !availability.IsWithinWindow(header.Time(), fa.storageWindow) ==> err == availability.ErrOutsideSamplingWindow && !$PutQ4 && !$PutODS && !$Fetched
+//@   ensures $PutODS ==> fa.archival && !availability.IsWithinWindow(header.Time(), fa.storageWindow) && !$PutQ4
+//@   ensures $PutQ4 ==> availability.IsWithinWindow(header.Time(), fa.storageWindow) || !$Fetched
+//@   ensures $FetchErr ==> err != nil && !$PutQ4 && !$PutODS
+//@   ensures $PutErr ==> err != nil
+//@   ensures err == nil ==> $PutQ4 || $PutODS || $Had
